@@ -244,10 +244,13 @@ class ParamResolver:
         return self._deep_eval_map[value]
 
     def _resolve_parameters_(self, resolver: ParamResolver, recursive: bool) -> ParamResolver:
+        def _name(k):
+            return k.name if isinstance(k, sympy.Symbol) else k
+
         new_dict: dict[cirq.TParamKey, float | str | sympy.Symbol | sympy.Expr] = {
-            k: k for k in resolver
+            _name(k): k for k in resolver
         }
-        new_dict.update({k: self.value_of(k, recursive) for k in self})
+        new_dict.update({_name(k): self.value_of(k, recursive) for k in self})
         new_dict.update({k: resolver.value_of(v, recursive) for k, v in new_dict.items()})
         if recursive and self._param_dict:
             new_resolver = ParamResolver(cast(ParamDictType, new_dict))
